@@ -282,3 +282,51 @@ func VF_C02_SetOperand(n, m int) {
 	vf.BudgetReset()
 	vf.Reach("end")
 }
+
+// ---- composite elements: sets of []int under the default collator ----
+
+var c02slices = [][]int{{}, {1}, {1, 2}, {1, 2, 3}, {2}, {2, 0}, {0, 5}}
+
+func sameSlice(a, b []int) bool { return !lexLess(a, b) && !lexLess(b, a) }
+
+// VF_C02_Composite: a set of slices built from the first n table entries plus one slice with an arbitrary
+// element: lexicographic order with a proper prefix first, no duplicates, and the set's collator is back
+// at depth 0 after every operation (a depth that creeps up makes a later, unrelated call panic).
+func VF_C02_Composite(n, order int) {
+	vf.Budget(200 * listBudget)
+	s := col.Set[[]int](nil).Make()
+	x := vf.Int("x")
+	vf.Assume(vf.And(x >= 0, x <= 3))
+	vals := append([][]int{}, c02slices[:n]...)
+	vals = append(vals, []int{1, x})
+	if order == 1 {
+		for i, j := 0, len(vals)-1; i < j; i, j = i+1, j-1 {
+			vals[i], vals[j] = vals[j], vals[i]
+		}
+	}
+	for _, v := range vals {
+		s.AddValue(v)
+		vf.Assert("collator-depth-zero-after-add", s.GetCollator().GetDepth() == 0)
+	}
+	for _, v := range vals {
+		s.AddValue(v) // adding again changes nothing
+	}
+	arr := s.AsArray()
+	ok := true
+	for i := 0; i+1 < len(arr); i++ {
+		ok = vf.And(ok, lexLess(arr[i], arr[i+1]))
+	}
+	vf.Assert("lexicographic-prefix-first-no-duplicates", ok)
+	for _, v := range vals {
+		vf.Assert("contains-what-was-added", s.ContainsValue(v))
+		k := s.GetIndex(v)
+		vf.Assert("index-of-member", k >= 1 && k <= len(arr) && sameSlice(arr[k-1], v))
+	}
+	vf.Assert("does-not-contain-a-stranger", !s.ContainsValue([]int{9, 9}))
+	vf.Assert("collator-depth-zero-after-searches", s.GetCollator().GetDepth() == 0)
+	s.RemoveValue(vals[0])
+	vf.Assert("removed", !s.ContainsValue(vals[0]))
+	vf.Assert("collator-depth-zero-after-remove", s.GetCollator().GetDepth() == 0)
+	vf.BudgetReset()
+	vf.Reach("end")
+}
